@@ -522,9 +522,10 @@ def check(run: Run):
             for rep, gk in enumerate(("list", "iter", "gen")):
                 if fmt not in O.DUMP_MANY and rep > 0 and not run.thorough():
                     continue
-                seqs.append((fmt, n, rng.randint(0, 10**9), run.thorough() and n <= 8, gk))
+                for _again in range(run.pick(1, 4)):
+                    seqs.append((fmt, n, rng.randint(0, 10**9), run.thorough() and n <= 8, gk))
             if fmt in ("sdf", "xyz"):
-                for rep in range(run.pick(2, 4)):
+                for rep in range(run.pick(2, 12)):
                     seqs.append((fmt, n, rng.randint(0, 10**9), run.thorough() and n <= 8, "rendered"))
     built = pmap(build_sequence, seqs, chunksize=1)
     dump_traces, dump_infos, tasks = [], [], []
